@@ -26,6 +26,8 @@ def run_cfg(chk, facts, cfg):
         return
     sfx = '' if cfg == 'default' else '[%s]' % cfg
     n = 0
+    from ..overrides import obligation as no_overrides
+    no_overrides(chk, PID, facts, sfx, [m.path], 'interval predicates and the range view')
 
     def den(base, kind, env):
         return m.denote(base, kind, env)
